@@ -26,7 +26,9 @@ func (l *envLocal) Echo(ctx context.Context, s string) (string, error) {
 }
 
 func c08Envelopes(rep *Report) {
-	for _, variant := range []string{"omitted-members", "one-chunk"} {
+	// (one-chunk-slow-encoder: the user-supplied encode function takes its time before it looks at the envelope it was
+	// given — as a buffered or network-bound encoder does; every envelope must still carry ITS OWN payload then)
+	for _, variant := range []string{"omitted-members", "one-chunk", "one-chunk-slow-encoder"} {
 		rep.Evaluations++
 		rep.Distinct++
 		d := map[string]any{"suite": "C08-envelopes", "variant": variant}
@@ -41,6 +43,9 @@ func c08Envelopes(rep *Report) {
 		go func() {
 			linkErr <- reg.LinkStream(ctx,
 				func(m rpc.Message[json.RawMessage]) error {
+					if variant == "one-chunk-slow-encoder" {
+						time.Sleep(40 * time.Microsecond)
+					}
 					if m.Response != nil {
 						var res struct {
 							Call  string          `json:"call"`
@@ -70,7 +75,7 @@ func c08Envelopes(rep *Report) {
 					pw.Write([]byte(fmt.Sprintf(`{"response":{"call":"nobody-%d-%d","value":null,"err":""}}`+"\n", i, k)))
 				}
 			}
-		case "one-chunk":
+		case "one-chunk", "one-chunk-slow-encoder":
 			var sb strings.Builder
 			for i := 0; i < 300; i++ {
 				id, arg := fmt.Sprintf("c%04d", i), strings.Repeat(fmt.Sprintf("%04d", i), 12)
